@@ -68,13 +68,31 @@ func mkTime(t types.Type, sec, nsec *Term) Value {
 	return Value{T: t, L: map[string]*Term{".sec": sec, ".nsec": nsec}}
 }
 
-// timeFromNS normalises total nanoseconds (math) into (sec wrap to int64, nsec in [0,1e9))
-func timeAddNS(t types.Type, base Value, d *Term) Value {
-	// nsec' = (nsec + d) mod 1e9 ; sec' = sec + floor((nsec+d)/1e9)   (sec wraps like Go's internal int64)
-	tot := mkArith("add", toMath(base.L[".nsec"]), d)
-	sec := mkConv(mkArith("add", toMath(base.L[".sec"]), floorDivC(tot, nsPerSec)), i64)
-	nsec := mkConv(floorModC(tot, nsPerSec), i64)
-	return mkTime(t, sec, nsec)
+// timeAddDur mirrors time.Time.Add in int64 arithmetic: dsec = d/1e9, nsec += d%1e9 with one carry/borrow; seconds wrap.
+func timeAddDur(t types.Type, base Value, d *Term) Value {
+	e9 := mkInt(i64, nsPerSec)
+	dsec := mkArith("div", d, e9)
+	nsec := mkArith("add", base.L[".nsec"], mkArith("rem", d, e9))
+	hi := mkCmp("le", e9, nsec)
+	lo := mkCmp("lt", nsec, mkInt(i64, 0))
+	one := mkInt(i64, 1)
+	dsec2 := mkIte(hi, mkArith("add", dsec, one), mkIte(lo, mkArith("sub", dsec, one), dsec))
+	nsec2 := mkIte(hi, mkArith("sub", nsec, e9), mkIte(lo, mkArith("add", nsec, e9), nsec))
+	return mkTime(t, mkArith("add", base.L[".sec"], dsec2), nsec2)
+}
+
+// timeUnix mirrors time.Unix(sec, nsec): normalises nsec into [0, 1e9) in int64 arithmetic.
+func timeUnix(t types.Type, sec, nsec *Term) Value {
+	e9 := mkInt(i64, nsPerSec)
+	zero := mkInt(i64, 0)
+	out := mkOr(mkCmp("lt", nsec, zero), mkCmp("le", e9, nsec))
+	n := mkArith("div", nsec, e9)
+	sec1 := mkArith("add", sec, n)
+	nsec1 := mkArith("sub", nsec, mkArith("mul", n, e9))
+	neg := mkCmp("lt", nsec1, zero)
+	sec2 := mkIte(neg, mkArith("sub", sec1, mkInt(i64, 1)), sec1)
+	nsec2 := mkIte(neg, mkArith("add", nsec1, e9), nsec1)
+	return mkTime(t, mkIte(out, sec2, sec), mkIte(out, nsec2, nsec))
 }
 
 func timeType(ex *Exec) types.Type { return ex.vc.timeT }
@@ -94,7 +112,7 @@ func init() {
 		return []Value{scalarV(ex.vc.durT, clampI64(d))}
 	})
 	reg("(time.Time).Add", "t+d, normalised; seconds wrap like the internal int64", func(ex *Exec, st *State, c *ast.CallExpr, r *Value, a []Value) []Value {
-		return []Value{timeAddNS(r.T, *r, toMath(a[0].scalar()))}
+		return []Value{timeAddDur(r.T, *r, a[0].scalar())}
 	})
 	reg("(time.Time).Before", "instant comparison", func(ex *Exec, st *State, c *ast.CallExpr, r *Value, a []Value) []Value {
 		return []Value{boolV(timeLess(*r, a[0]))}
@@ -117,8 +135,7 @@ func init() {
 		})
 	}
 	reg("time.Unix", "normalises nsec into [0,1e9)", func(ex *Exec, st *State, c *ast.CallExpr, r *Value, a []Value) []Value {
-		base := mkTime(ex.vc.timeT, a[0].scalar(), mkInt(i64, 0))
-		return []Value{timeAddNS(ex.vc.timeT, base, toMath(a[1].scalar()))}
+		return []Value{timeUnix(ex.vc.timeT, a[0].scalar(), a[1].scalar())}
 	})
 	reg("time.Now", "an arbitrary valid instant", func(ex *Exec, st *State, c *ast.CallExpr, r *Value, a []Value) []Value {
 		v := freshValue("now", ex.vc.timeT)
